@@ -127,10 +127,10 @@ def run_hist():
             continue
         h = json.loads(line)
         now[0] = 1000
-        wq = jobs.workq()
+        q = [jobs.workq()]      # q[0]: the queue of the (possibly restarted) queue server
 
         class Handler(qserve.QPlugin):
-            workq = wq
+            workq = q[0]
 
         plugin = Handler()
         proxy = WorkqProxy(plugin)
@@ -141,11 +141,17 @@ def run_hist():
             tracked.append("%s:makezip" % c)
             for w in writers:
                 tracked.append("%s:render-%s" % (c, w))
-        steps = []
-        for op in h["ops"]:
+
+        def live_of(jid):
+            j = q[0].id2job.get(jid)
+            return None if j is None else json.loads(json.dumps(
+                {"done": j.done, "error": j.error, "info": j.info, "result": j.result}))
+
+        def apply_plain(op, applied):
+            """One queue op of another client; appends the model-level ops that were issued to `applied`
+            (the model mirrors a KeyError as a no-op).  Returns the name of the exception raised, if any."""
             k = op[0]
-            applied = []         # model-level ops that were issued (the model mirrors a KeyError as a no-op)
-            raised = None
+            wq = q[0]
             try:
                 if k == "render":            # the real do_render creates both jobs
                     _, c, w = op
@@ -153,69 +159,100 @@ def run_hist():
                     app.qserve = proxy
                     r = app.do_render(c, {"writer": w}, is_new=False)
                     if "error" not in r:
-                        applied = [["J", now[0], "%s:makezip" % c, ["P", 20 * 60, None]],
-                                   ["J", now[0], "%s:render-%s" % (c, w), ["P", 20 * 60, None]]]
+                        applied += [["J", now[0], "%s:makezip" % c, ["P", 20 * 60, None]],
+                                    ["J", now[0], "%s:render-%s" % (c, w), ["P", 20 * 60, None]]]
                 elif k == "push":
                     _, jid, channel, timeout, ttl = op
-                    applied = [["J", now[0], jid, ["P", timeout if timeout is not None else 120, ttl]]]
+                    applied.append(["J", now[0], jid, ["P", timeout if timeout is not None else 120, ttl]])
                     plugin.rpc_qadd(channel=channel, jobid=jid, timeout=timeout, ttl=ttl)
                 elif k == "pull":
                     _, channel = op
-                    q = wq.channel2q.get(channel, [])
-                    if any(not j.done for j in q):      # never block
+                    cq = wq.channel2q.get(channel, [])
+                    if any(not j.done for j in cq):     # never block
                         got = plugin.rpc_qpull([channel])
-                        applied = [["J", now[0], got["jobid"], ["U"]]]
+                        applied.append(["J", now[0], got["jobid"], ["U"]])
                 elif k == "setinfo":
                     _, jid, info = op
-                    applied = [["J", now[0], jid, ["I", info]]]
+                    applied.append(["J", now[0], jid, ["I", info]])
                     plugin.rpc_qsetinfo(jid, info)
                 elif k == "finish":
                     _, jid, result, error = op
-                    applied = [["J", now[0], jid, ["F", result, error]]]
+                    applied.append(["J", now[0], jid, ["F", result, error]])
                     plugin.rpc_qfinish(jid, result=result, error=error)
                 elif k == "kill":
                     _, jid = op
-                    applied = [["J", now[0], jid, ["K"]]]
+                    applied.append(["J", now[0], jid, ["K"]])
                     plugin.rpc_qkill([jid])
                 elif k == "dropmark":
                     _, jid = op
-                    applied = [["J", now[0], jid, ["M"]]]
+                    applied.append(["J", now[0], jid, ["M"]])
                     plugin.rpc_qdrop([jid])
                 elif k == "wait":
                     _, jid = op
                     j = wq.id2job.get(jid)
                     if j is None or j.done:             # never block
-                        applied = [["J", now[0], jid, ["W"]]]
+                        applied.append(["J", now[0], jid, ["W"]])
                         plugin.rpc_qwait([jid])
                 elif k == "tick":                       # clock advances, handletimeouts runs
                     now[0] += op[1]
-                    applied = [["T", now[0]]]
+                    applied.append(["T", now[0]])
                     wq.handletimeouts()
                 elif k == "dropdead":                   # clock advances, watchdog runs
                     now[0] += op[1]
-                    applied = [["D", now[0]]]
+                    applied.append(["D", now[0]])
                     wq.dropdead()
                 elif k == "restart":                    # the queue server is restarted without a data dir: every job is
-                    wq = jobs.workq()                   # gone, the nserve process (and whatever it remembers) lives on
-                    Handler.workq = wq
-                    applied = [["R"]]
+                    q[0] = jobs.workq()                 # gone, the nserve process (and whatever it remembers) lives on
+                    Handler.workq = q[0]
+                    applied.append(["R"])
                 else:
                     raise RuntimeError("unknown op %r" % (op,))
             except KeyError:
-                raised = "KeyError"
+                return "KeyError"
+            return None
+
+        steps = []
+        for op in h["ops"]:
+            applied = []
+            raised = None
+            inter = None
+            if op[0] == "istatus":
+                _, c, w, inj = op
+                rid, mid = "%s:render-%s" % (c, w), "%s:makezip" % c
+                pending = {int(k): v for k, v in inj.items()}
+                states = [[live_of(rid), live_of(mid)]]     # at the start of the request
+                fired = []
+
+                def before(k, pending=pending, states=states, fired=fired, rid=rid, mid=mid, applied=applied):
+                    o = pending.pop(k, None)
+                    if o is not None:
+                        if o[0] == "istatus":
+                            raise RuntimeError("nested istatus")
+                        apply_plain(o, applied)
+                        fired.append(k)
+                        states.append([live_of(rid), live_of(mid)])
+
+                app = nserve.Application()
+                ip = InterleavingProxy(proxy, before)
+                app.qserve = ip
+                resp = call_status(app, c, w)
+                inter = {"resp": resp, "reads": ip.reads, "states": states, "fired": fired, "late": sorted(pending)}
+                for k in sorted(pending):                   # the request was over before its k-th RPC: plain ops after it
+                    apply_plain(pending[k], applied)
+            else:
+                raised = apply_plain(op, applied)
             snaps = {jid: proxy.qinfo(jid) for jid in tracked}
-            live = {}
-            for jid in tracked:
-                j = wq.id2job.get(jid)
-                live[jid] = None if j is None else json.loads(json.dumps(
-                    {"done": j.done, "error": j.error, "info": j.info, "result": j.result}))
+            live = {jid: live_of(jid) for jid in tracked}
             status = {}
             for c in colls:
                 for w in writers:
                     app = nserve.Application()
                     app.qserve = proxy
                     status["%s|%s" % (c, w)] = call_status(app, c, w)
-            steps.append({"op": op, "applied": applied, "raised": raised, "snaps": snaps, "live": live, "status": status})
+            st = {"op": op, "applied": applied, "raised": raised, "snaps": snaps, "live": live, "status": status}
+            if inter is not None:
+                st["inter"] = inter
+            steps.append(st)
         real_stdout.write(json.dumps({"id": h["id"], "steps": steps}) + "\n")
     real_stdout.flush()
 
